@@ -599,7 +599,7 @@ type restoreSrv struct {
 	prev  []byte
 }
 
-func (s *restoreSrv) Context() context.Context                       { return context.Background() }
+func (s *restoreSrv) Context() context.Context                      { return context.Background() }
 func (s *restoreSrv) SendAndClose(*regattapb.RestoreResponse) error { return nil }
 func (s *restoreSrv) Recv() (*regattapb.RestoreMessage, error) {
 	if s.i >= len(s.msgs) {
